@@ -26,5 +26,7 @@ Definition readchunk_ahead (pos cursor : Z) : bool := (cursor <? pos).
 Definition line_too_long (chunk_size max_size : Z) : bool := (max_size <? chunk_size).
 (* readuntil: `max_size = max_size or self._high_water` (None and 0 both select the high-water mark) *)
 Definition until_max (max_size high : Z) : Z := if max_size =? 0 then high else max_size.
+(* _wait raises a pending self._exception before creating the waiter *)
+Definition wait_checks_exception : bool := true.
 (* sys.maxsize of the interpreter running the check *)
 Definition read_all_chunk_size : Z := 9223372036854775807.
